@@ -308,6 +308,7 @@ def r10_2(ctx):
                     if isinstance(pt, ast.MatchValue) and isinstance(pt.value, ast.Attribute):
                         arms.add(pt.value.attr)
     enq = {}
+    adm_sites = []
     for fi in p.functions.values():
         for w, c in admission_items(fi):
             r = call_recv(c)
@@ -325,7 +326,40 @@ def r10_2(ctx):
                 ctx.bad("R10.2", fi.module, fi.qual, norm(c), "cannot determine the command kind enqueued here", c.lineno)
                 continue
             enq.setdefault(kind, []).append(fi.key)
+            adm_sites.append((fi, w, c, kind))
     ctx.floor("R10.2", len(enq), 12, "command kinds that can be enqueued")
+    # (d) a region that removes messages whatever their flags (expunge(..., check_deleted=False)) must be admitted under a
+    #     kind that is exclusive unconditionally: EXPUNGE/CLOSE are exclusive only while the Deleted sequence is non-empty,
+    #     which is about the messages *they* remove, not about an arbitrary UID list.
+    n_d = 0
+    for fi, w, c, kind in adm_sites:
+        forced = [x for st in w.body for x in calls_in(st) if call_name(x) == "expunge" and isinstance(kwarg(x, "check_deleted"), ast.Constant) and kwarg(x, "check_deleted").value is False]
+        if not forced:
+            continue
+        n_d += 1
+        ctx.analysed(fi)
+        admitted_with = []
+        try:
+            for exe in KINDS:
+                for exe_peek in (True, False):
+                    if exe != "FETCH" and not exe_peek:
+                        continue
+                    got = _eval_conflict(wc.node, conflicting, {"command": kind, "fetch_peek": True}, [{"command": exe, "fetch_peek": exe_peek}], False, True)
+                    if got is not True:
+                        admitted_with.append(exe)
+        except _Unknown as e:
+            raise AnalysisError(f"would_conflict uses a construct the evaluator does not know ({e}); relation not extractable")
+        if admitted_with or kind not in conflicting:
+            ctx.bad(
+                "R10.2", fi.module, fi.qual, f"forced expunge admitted as {kind}",
+                f"`{norm(forced[0], 70)}` removes messages regardless of \\Deleted but is queued as a phony {kind}: with an empty Deleted "
+                f"sequence would_conflict admits it while {sorted(set(admitted_with))[:4]} commands of other sessions are executing - "
+                "messages vanish and sequence numbers shift under a running FETCH/STORE/SEARCH",
+                forced[0].lineno,
+            )
+        else:
+            ctx.ok("R10.2", where(fi), f"forced expunge runs under a phony {kind}: conflicts with every executing kind whatever the Deleted sequence holds")
+    ctx.floor("R10.2d", n_d, 2, "admission regions around expunge(check_deleted=False)")
     for k, sites in sorted(enq.items()):
         if k in arms:
             ctx.ok("R10.2", where(wc), f"enqueued kind {k} ({len(sites)} site(s)) has an explicit arm")
